@@ -152,12 +152,24 @@ func runC19(rc *RunCtx) {
 	sp.CollateralPrice = rc.Pick([]int64{2, 1000, 10_000_000_000})
 	sp.PolRatio = int64(rc.Intn(41))
 	sp.ReferralCommission = int64(rc.Intn(26))
+	if rc.Chance(0.3) { // zero is a legitimate governance value (and indistinguishable from "absent" in proto3 / JSON)
+		if rc.Chance(0.5) {
+			sp.PolRatio = 0
+		} else {
+			sp.ReferralCommission = 0
+		}
+	}
 	sp.PricePerTbPerMonth = rc.Pick([]int64{8, 15, 1})
 	sp.MissesToBurn = int64(1 + rc.Intn(3))
 	stipend := sdk.AccAddress([]byte("stipend-account-xyz!")).String()
 	mp := minttypes.NewParams("ujkl", int64(rc.Intn(20)), rc.Pick([]int64{4_200_000, 1_000_000, 10, 123_456_789}), int64(40+rc.Intn(41)),
 		rc.Pick([]int64{0, 6, 10_512_000, 5_256_000 * 1000}), stipend, int64(rc.Intn(13)))
-	c, err := chain.New(chain.Config{Seed: rc.Seed*1000 + int64(rc.Case), NAcc: nUser + nProv, Storage: sp, Mint: &mp})
+	govCase := rc.Chance(0.3)
+	c19cfg := chain.Config{Seed: rc.Seed*1000 + int64(rc.Case), NAcc: nUser + nProv, Storage: sp, Mint: &mp}
+	if govCase {
+		c19cfg.GovVotingSeconds = 10
+	}
+	c, err := chain.New(c19cfg)
 	if err != nil {
 		rc.Abort("init: " + err.Error())
 		return
@@ -434,6 +446,19 @@ func runC19(rc *RunCtx) {
 			}
 		})
 	}
+	if rc.Chance(0.4) { // a listed name changes hands without being delisted first: the (now stale) listing stays in the state
+		qRns = append(qRns, func() {
+			for _, n := range names {
+				if listed[n.full] {
+					to := (n.owner + 1) % nUser
+					if r := w.tx(n.owner, "rns.Transfer(listed)", &rnstypes.MsgTransfer{Creator: w.bech(n.owner), Name: n.full, Receiver: w.bech(to)}); r.OK() {
+						n.owner = to
+					}
+					return
+				}
+			}
+		})
+	}
 	if rc.Chance(0.35) { // churn: ownership moves, the old owner's primary-name record stays behind
 		qRns = append(qRns, func() {
 			for _, n := range names {
@@ -607,6 +632,20 @@ func runC19(rc *RunCtx) {
 				if a.Bech == n.To {
 					w.tx(i, "notifications.DeleteNotification", &notiftypes.MsgDeleteNotification{Creator: n.To, From: n.From, Time: n.Time})
 				}
+			}
+		})
+	}
+
+	if govCase {
+		// governance moves module parameters away from their genesis values mid-history, also to zero (a legitimate value
+		// that proto3 / JSON cannot tell from "absent")
+		qStorage = append(qStorage, func() {
+			kv := [][3]string{{"storage", "Referrals", `"0"`}, {"storage", "POLRatio", `"0"`}, {"storage", "MissesToBurn", `"7"`},
+				{"jklmint", "DevGrants", `"0"`}, {"jklmint", "MintIncrease", `"0"`}, {"storage", "MaxContractAgeInBlocks", `"0"`}}[rc.Intn(6)]
+			err := c.ParamChange(kv[0], kv[1], kv[2])
+			rc.Logf("h=%d governance %s/%s := %s -> %v", c.Height, kv[0], kv[1], kv[2], err)
+			if err == nil {
+				rc.Count("gov_param_changes", 1)
 			}
 		})
 	}
